@@ -121,6 +121,13 @@ def cases(tier, seed):
         # with coefficient access / sums / products of the nested result
         progs += [('CALLX:a | b=>g(a, b).e * a', 2), ('CALLX:a | b=>a + g(a, b)', 2), ('CALLX:a * b=>g(a, b) ^ b', 2), ('CALLX:~a=>g(a) * b - g(b)', 2),
                   ('CALLX:a ^ b=>2 * g(a, b) + g(b, a).grade(2)', 2)]
+        # constant multivectors captured from the enclosing scope, and a plain number handed to a nested registered function:
+        # outside the supported list (may raise, may never return another value)
+        progs += [('LENIENT:CONST:(E1 * a).e1 * a', 1), ('LENIENT:CONST:(E1 * a).e1 + b', 2), ('LENIENT:CONST:E1 * a + b', 2), ('LENIENT:CONST:a * E1 - b', 2),
+                  ('LENIENT:CONST:(K >> a) + a', 1), ('LENIENT:CONST:a.e1 * K + a', 1)]
+        progs += [('LENIENT:CALLX:a * b + a=>g(a, 2).e * b', 2), ('LENIENT:CALL:a * b + a=>g(a, 2).e * b', 2), ('LENIENT:CALL:a * b + a=>g(2, a) + b', 2)]
+        # a lambda is a function too
+        progs += [('LAMBDA:a * b + a', 2), ('LAMBDA:~a', 1)]
         # truth value and equality of multivectors inside f: outside the supported list (may raise, may never differ)
         progs += [('LENIENT:BODY:w = a.grade(1) ^ b;return w if w else a + b', 2), ('LENIENT:BODY:return a * 2 if a == b else a - b', 2),
                   ('LENIENT:BODY:return a + b if a != b else a', 2),
@@ -212,6 +219,11 @@ def _random_tree(rng, U, B, depth):
 def _compile(src, nargs, name):
     args = ', '.join('ab'[:nargs]) if nargs <= 2 else 'a, b, c'
     ns = {}
+    if src.startswith('LAMBDA:'):
+        f = eval(f'lambda {args}: {src[7:]}', ns)
+        return f, ns
+    if src.startswith('CONST:'):
+        src = src[6:]
     if src.startswith('BODY:'):
         body = '\n'.join('    ' + ln for ln in src[5:].split(';'))
         exec(f'def {name}({args}):\n{body}\n', ns)
@@ -245,6 +257,9 @@ def run_case(desc, V):
         args = [mv(alg, V, 'ab'[i], desc['keys'][i]) for i in range(nargs)]
         if src == 'a.sqrt()' and V.symbolic and mode == 'direct':
             sym.cur().assume(args[0].values()[0].t > 0, 'scalar part > 0 (sqrt domain)')
+        consts = {}
+        if 'CONST:' in desc['src']:
+            consts = {'E1': alg.blades[alg.bin2canon[1]], 'K': alg.multivector(keys=(0, 1, 2 ** alg.d - 1) if alg.d else (0,), values=[2, 3, 5][: 3 if alg.d else 1])}
         if src.startswith('CALL:') or src.startswith('CALLX:'):
             crossed = src.startswith('CALLX:')
             gsrc, fsrc = src.split(':', 1)[1].split('=>')
@@ -259,7 +274,8 @@ def run_case(desc, V):
             exec(f'def {name}(a, b):\n    return {fsrc}\n', ns)
             f = ns[name]
         else:
-            f, _ = _compile(src, nargs, name)
+            f, fns = _compile(src, nargs, name)
+            fns.update(consts)
         try:
             if mode == 'direct':
                 results[mode] = f(*args)
@@ -320,6 +336,12 @@ def _feature(src):
         return 'coefficient-access' if re.search(r'\.e[0-9a-f]*\b', src) else 'nested-registered-other-mode'
     if 'BODY:' in src:
         return 'truth-value-or-equality'
+    if 'CONST:' in src:
+        return 'captured-constant-multivector'
+    if src.startswith('LAMBDA:'):
+        return 'lambda'
+    if re.search(r'g\((a, 2|2, a)\)', src):
+        return 'nested-call-with-number'
     if src.startswith('CALL:'):
         feats.append('nested-registered')
     # one feature per key, in a fixed priority order, so that the set of possible keys does not
